@@ -24,7 +24,7 @@ def to_op(case, cid):
         else:
             steps.append(s)
     op = {"op": "hist", "id": cid, "steps": steps, "env": case.get("env") or {}}
-    for k in ("rep", "par"):
+    for k in ("rep", "par", "continue"):
         if k in case:
             op[k] = case[k]
     return op
